@@ -102,6 +102,9 @@ VARIATIONS = [
     ("halo-explicit-vs-other", {"halo": 12.0}, {"halo": 8.0}),
     # two halos that agree to ten digits but pad a different number of cells (int(halo/dx): dx = 2)
     ("halo-nearly-equal", {"halo": 2.0}, {"halo": 1.9999999999}),
+    # a cell size that is not representable (dx = 14/6): halo 5*14/6 pads int(halo/dx) = 4 columns although
+    # halo*6/14 = 5.0, halo 11.9 pads 5 — two requests that a re-derived pad width is tempted to identify
+    ("halo-pad-ambiguous", {"domain": [14.0, 8.0], "halo": 5 * 14.0 / 6}, {"domain": [14.0, 8.0], "halo": 11.9}),
     ("precision", {}, {"precision": "single"}),
     ("footprint", {}, {"footprint": False}),
 ]
